@@ -152,7 +152,7 @@ func (r *repoDec) ClaimFirst(ctx context.Context, tx *sql.Tx, outboxID string, o
 	}
 	if e != nil && claimed {
 		r.w.tr.Emit(map[string]any{"t": "Claim", "id": r.w.modelID(e.ID), "attempts": e.Attempts, "w": r.w.gen,
-			"lease": int(claimUntil.Sub(now) / time.Second)})
+			"lease": sat(claimUntil.Sub(now))})
 	} else {
 		r.w.tr.Emit(map[string]any{"t": "ClaimNone", "found": e != nil})
 	}
@@ -173,7 +173,7 @@ func (r *repoDec) ReleaseClaim(ctx context.Context, tx *sql.Tx, outboxID string,
 	if err == nil {
 		// the backoff as the code computed it: both timestamps come from this one call
 		r.w.tr.Emit(map[string]any{"t": "Release", "id": r.w.modelID(&id), "ok": ok,
-			"delta": int(nextAttemptAt.Sub(now) / time.Second), "haserr": lastError != ""})
+			"delta": sat(nextAttemptAt.Sub(now)), "haserr": lastError != ""})
 	}
 	return ok, err
 }
